@@ -973,45 +973,70 @@ def pure_entry_loops(rep: Report):
     def comps(q):
         return [x if isinstance(x, SReal) else SReal.mk(SReal.lift(x)) for x in ix.QScal.lift(q).c]
 
-    def definition_at(fr, r):
-        """SVF(r) and SMALL(r) are DEFINED, for every r, as the modulus of Hin(r, r-1) and as the code's deflation test on the loop's input:
-        the instance at row r, written with the code's own operations so that the square-root terms are the very ones the code produces"""
-        Hin = defl_in(fr)
+    def formula_pure(fr, Hin, r):
         tol = fr.vars["tol"]
         w, x, y, z = comps(Hin(r, r - 1))
         sv = (w * w + x * x + y * y + z * z) ** half
         a, b = comps(Hin(r - 1, r - 1)), comps(Hin(r, r))
         ds = (a[0] ** 2 + a[1] ** 2 + a[2] ** 2 + a[3] ** 2) ** half + (b[0] ** 2 + b[1] ** 2 + b[2] ** 2 + b[3] ** 2) ** half + Fraction(1, 10 ** 30)
-        test = sv <= tol * smax(Fraction(1), ds)
+        return sv, sv <= tol * smax(Fraction(1), ds)
+
+    def formula_unified(fr, Hin, r):
+        tol, af = fr.vars["tol"], fr.vars["aed_factor"]
+        w, x, y, z = comps(Hin(r, r - 1))
+        sv_sq = w * w + x * x + y * y + z * z
+        a, b = comps(Hin(r - 1, r - 1)), comps(Hin(r, r))
+        ds_sq = a[0] * a[0] + a[1] * a[1] + a[2] * a[2] + a[3] * a[3] + b[0] * b[0] + b[1] * b[1] + b[2] * b[2] + b[3] * b[3]
+        bound_sq = (af * tol) * (af * tol) * smax(Fraction(1), ds_sq)
+        return sv_sq ** half, sv_sq <= bound_sq
+    FORMULA = {}
+
+    def definition_at(fr, r):
+        """SVF(r) and SMALL(r) are DEFINED, for every r, as the modulus of Hin(r, r-1) and as the code's deflation test on the loop's input:
+        the instance at row r, written with the code's own operations so that the square-root terms are the very ones the code produces"""
+        sv, test = FORMULA[fr.fn.qualname](fr, defl_in(fr), r)
         return sand(SBool.mk(SVF(zi(r)) == SReal.lift(sv)), SBool.mk(SMALL(zi(r)) == test.z))
 
     def defl_closed(it, fr, k):
         Hin = defl_in(fr)
-        return lambda vi: ix.ite(sand(SBool.mk(zi(vi[1]) == zi(vi[0]) - 1), vi[0] >= 1, vi[0] < k, SBool.mk(SMALL(zi(vi[0])))), ix.QScal(Fraction(0)), Hin(vi[0], vi[1]))
+        start = fr.vars["i_start"] if "i_start" in fr.vars else 1
+        return lambda vi: ix.ite(sand(SBool.mk(zi(vi[1]) == zi(vi[0]) - 1), vi[0] >= start, vi[0] < k, SBool.mk(SMALL(zi(vi[0])))), ix.QScal(Fraction(0)), Hin(vi[0], vi[1]))
 
     def defl_max(it, fr, k):
         return SReal.mk(MS(zi(k)))
 
     def defl_assume(it, fr, k):
         c = cur()
-        c.assume(SBool.mk(MS(zi(1)) == 0))                                                   # max_sub = 0.0 before the loop (checked by establish)
+        start = fr.vars["i_start"] if "i_start" in fr.vars else 1
+        c.ghost["defl_start"] = start
+        c.assume(SBool.mk(MS(zi(start)) == 0))                                               # max_sub = 0.0 before the loop (checked by establish)
         c.assume(definition_at(fr, k))                                                       # the definitions, instantiated at the row of this step
         c.assume(SBool.mk(MS(zi(k) + 1) == z3.If(MS(zi(k)) >= SVF(zi(k)), MS(zi(k)), SVF(zi(k)))))   # unfolding of the running maximum at this step
         w = c.ghost.get("defl_witness")
         if w is None:
             w = c.ghost["defl_witness"] = SInt.var("r_witness")
         # witness form of 'maximum': for the fixed row r_witness, once it has been visited max_sub >= its sub-diagonal modulus
-        c.assume(sor(snot(sand(w >= 1, w < k)), SBool.mk(MS(zi(k)) >= SVF(zi(w)))))
+        c.assume(sor(snot(sand(w >= start, w < k)), SBool.mk(MS(zi(k)) >= SVF(zi(w)))))
 
     class DeflRule(FunctionalInv):
         def preserve(self, it, fr, k):
             FunctionalInv.preserve(self, it, fr, k)
             c = cur()
             w = c.ghost["defl_witness"]
-            c.require("inv.preserve", sor(snot(sand(w >= 1, w < k + 1)), SBool.mk(MS(zi(k) + 1) >= SVF(zi(w)))), "running maximum bounds the witness row after this step",
+            c.require("inv.preserve", sor(snot(sand(w >= c.ghost["defl_start"], w < k + 1)), SBool.mk(MS(zi(k) + 1) >= SVF(zi(w)))), "running maximum bounds the witness row after this step",
                       key="pure.defl.inv.preserve.max_witness")
 
     QI = SC + "quaternion_schur_pure_implicit"
+    QU = SC + "quaternion_schur_unified"
+
+    class MainAU(MainA):
+        modifies = ("H", "Q_accum", "diag", "shift_idx")
+
+        def havoc(self, it, fr, k):
+            MainA.havoc(self, it, fr, k)
+            si = SInt.var(cur().fresh_name("shift_idx"))
+            cur().assume(si >= 0)
+            fr.vars["shift_idx"] = si
     arb = lambda nm: (lambda it, fr: fresh_q(nm, (fr.vars["n"], fr.vars["n"])))
     def at(rule, target, it_src, assigns=None):
         rule.expects = {"target": target, "iter": it_src}
@@ -1024,19 +1049,26 @@ def pure_entry_loops(rep: Report):
                   (QN, 3): at(FunctionalInv(arrays={"H": add_closed}, tag="pure.add."), "i", "range(n)", {"H"}),
                   (QN, 4): at(defl(), "i", "range(1,n)")},
              QI: {(QI, 0): at(MainA(), "k", "range(max_iter)"), (QI, 1): at(HavocAll({"H": arb("Hsw"), "Q_accum": arb("Qsw")}), "s", "range(0,n-1)"),
-                  (QI, 2): at(defl(), "i", "range(1,n)")}}
-
-    def setup(I, ctx):
-        (n,) = dims(ctx, "n")
-        ctx.assume(n >= 1, base=True)
-        A = ix.input_array("A", [n, n], quat=True)
-        K, tol = SInt.var("max_iter"), SReal.var("tol")
-        ctx.assume(sand(K >= 0, tol >= 0), base=True)
-        return [A], dict(max_iter=K, tol=tol, return_diagnostics=True, shift_mode="rayleigh"), (A, n, tol)
+                  (QI, 2): at(defl(), "i", "range(1,n)")},
+             QU: {(QU, 0): at(MainAU(), "k", "range(max_iter)"), (QU, 2): at(HavocAll({"H": arb("Hsw"), "Q_accum": arb("Qsw")}), "s", "range(0,n-1)"),
+                  (QU, 3): at(defl(), "i", "range(i_start,n)")}}
+    FORMULA.update({QN: formula_pure, QI: formula_pure, QU: formula_unified})
+    EXTRA = {QN: dict(shift_mode="rayleigh"), QI: dict(shift_mode="rayleigh"), QU: dict(variant="aed", precompute_shifts=False, aed_factor="sym")}
 
     def post(I, ctx, outcome, val, aux):
         return []
     for qn, rules in cases.items():
+        def setup(I, ctx, qn=qn):
+            (n,) = dims(ctx, "n")
+            ctx.assume(n >= 1, base=True)
+            A = ix.input_array("A", [n, n], quat=True)
+            K, tol = SInt.var("max_iter"), SReal.var("tol")
+            ctx.assume(sand(K >= 0, tol >= 0), base=True)
+            kw = dict(EXTRA[qn])
+            if kw.get("aed_factor") == "sym":
+                kw["aed_factor"] = SReal.var("aed_factor")
+                ctx.assume(kw["aed_factor"] > 0, base=True)
+            return [A], dict(max_iter=K, tol=tol, return_diagnostics=True, **kw), (A, n, tol)
         run_case(rep, P, qn, "entry_loops", setup, post, lib=Library("idx"), contracts=contracts, loop_rules=rules, clauses=[], replay=replay_variants, timeout_s=60,
                  loop_end=True, max_paths=600)
 
